@@ -443,7 +443,10 @@ func (e *Engine) Evaluate(c *Case) ([]string, error) {
 		}
 		// harness invariant: the reference run speaks the plugin protocol
 		_, _, rerr, nf, err := responseFile(ref.Stdout)
-		if ref.Exit != 0 || err != nil || rerr != "" || nf < 1 || (nf != 1 && c.Expect.Kind != "identical-stdout") {
+		// (for a byte comparison of whole responses any well-formed response will do as reference, also one
+		// that carries an error or no file)
+		wholeResponse := c.Expect.Kind == "identical-stdout"
+		if ref.Exit != 0 || err != nil || (!wholeResponse && (rerr != "" || nf != 1)) {
 			return nil, &HarnessError{fmt.Sprintf("reference run did not produce one file: exit=%d files=%d err=%v resperr=%q stderr=%s",
 				ref.Exit, nf, err, rerr, tailStr(ref.Stderr, 1500))}
 		}
